@@ -97,3 +97,15 @@ Faults.vos Faults.vok Faults.required_vos: Faults.v
 FaultsFacts.vo FaultsFacts.glob FaultsFacts.v.beautified FaultsFacts.required_vo: FaultsFacts.v Faults.vo
 FaultsFacts.vio: FaultsFacts.v Faults.vio
 FaultsFacts.vos FaultsFacts.vok FaultsFacts.required_vos: FaultsFacts.v Faults.vos
+Sync.vo Sync.glob Sync.v.beautified Sync.required_vo: Sync.v 
+Sync.vio: Sync.v 
+Sync.vos Sync.vok Sync.required_vos: Sync.v 
+SyncFacts.vo SyncFacts.glob SyncFacts.v.beautified SyncFacts.required_vo: SyncFacts.v Sync.vo
+SyncFacts.vio: SyncFacts.v Sync.vio
+SyncFacts.vos SyncFacts.vok SyncFacts.required_vos: SyncFacts.v Sync.vos
+Iterator.vo Iterator.glob Iterator.v.beautified Iterator.required_vo: Iterator.v Bytes.vo Segment.vo Stack.vo
+Iterator.vio: Iterator.v Bytes.vio Segment.vio Stack.vio
+Iterator.vos Iterator.vok Iterator.required_vos: Iterator.v Bytes.vos Segment.vos Stack.vos
+IteratorFacts.vo IteratorFacts.glob IteratorFacts.v.beautified IteratorFacts.required_vo: IteratorFacts.v Bytes.vo BytesFacts.vo Segment.vo SegmentFacts.vo Stack.vo StackFacts.vo Iterator.vo
+IteratorFacts.vio: IteratorFacts.v Bytes.vio BytesFacts.vio Segment.vio SegmentFacts.vio Stack.vio StackFacts.vio Iterator.vio
+IteratorFacts.vos IteratorFacts.vok IteratorFacts.required_vos: IteratorFacts.v Bytes.vos BytesFacts.vos Segment.vos SegmentFacts.vos Stack.vos StackFacts.vos Iterator.vos
